@@ -308,3 +308,72 @@ def o6_1_confirm(v, out):
     """Native: a reader (snapshot + two gets) runs to completion while a two-key batch is half way into the memtable."""
     if out.get('_rc') != 0: return (False, 'native run failed: %s' % out.get('_stderr', '')[-300:])
     return (out.get('partial') == 'true', 'reader paused inside the batch insert observed (k1,k2) = (%s); before the batch (a,a), after it (b,b)' % out.get('observed'))
+
+
+# =============================================================== O2.4 flush ordering (compact_memtable)
+def o2_4_flush_ordering(mir, tier):
+    """CompactionWorker::compact_memtable: the immutable memtable is dropped and obsolete files are removed only after the table
+    was written AND the manifest edit was logged and applied; every failure puts the database into the failed state and stops."""
+    fn = mir.method('CompactionWorker', 'compact_memtable')
+    res = Result('O2.4 flush ordering in compact_memtable', [fn.path],
+                 'convert_memtable_to_file and log_and_apply each succeed or fail (free), shutdown flag free; other callees opaque')
+    t0 = time.time()
+    S = lib.std_summaries(); P = S['$patterns']
+    conv_ok, apply_ok, shutting = Bool('table_written'), Bool('manifest_logged'), Bool('shutting_down')
+    P[GUARD] = lib.ptr_deref
+    def add(env, ev):
+        st = dict(env['$state']); st['events'] = st['events'] + [ev]; env['$state'] = st
+    def conv(se, env, pc, *a):
+        add(env, 'convert_memtable_to_file')
+        return [(conv_ok, Enum('Ok', ((),)), env['$state']), (Not(conv_ok), Enum('Err', (Opaque('table error'),)), env['$state'])]
+    P[r'DB::convert_memtable_to_file'] = conv
+    def laa(se, env, pc, *a):
+        add(env, 'log_and_apply')
+        return [(apply_ok, Enum('Ok', ((),)), env['$state']), (Not(apply_ok), Enum('Err', (Opaque('manifest error'),)), env['$state'])]
+    P[r'VersionSet::log_and_apply'] = laa
+    def ev(name):
+        def f(se, env, pc, *a):
+            add(env, name); return [(None, (), env['$state'])]
+        return f
+    P[r'DB::set_bad_database_state'] = ev('set_bad_database_state')
+    P[r'DB::remove_obsolete_files'] = ev('remove_obsolete_files')
+    P[r'VersionSet::release_version'] = ev('release_version')
+    P[r'VersionSet::get_current_version'] = lambda se, env, pc, *a: lib.one(env, Opaque('version'))
+    P[r'Atomic::load'] = lambda se, env, pc, *a: lib.one(env, shutting)
+    P[r'Atomic::store'] = ev('atomic_store')
+    def on_call(se, env, raw, vals):
+        if 'dyn MemTable' in raw and raw.startswith('Option::') and raw.endswith('::take'): add(env, 'drop_immutable_memtable')
+    S['$on_call'] = on_call
+    ex = Exec(mir, S, loop_bound=4, opaque_calls_ok=True)
+    def k(ret, env, pc):
+        evs = env['$state']['events']
+        def before(a, b): return a in evs and b in evs and evs.index(a) < evs.index(b)
+        posts = [('the immutable memtable is dropped although its table file was not written', Or(BoolVal('drop_immutable_memtable' not in evs), conv_ok)),
+                 ('the immutable memtable is dropped although the manifest edit was not logged', Or(BoolVal('drop_immutable_memtable' not in evs), And(conv_ok, apply_ok))),
+                 ('the immutable memtable is dropped before the manifest edit is logged and applied', BoolVal('drop_immutable_memtable' not in evs or before('log_and_apply', 'drop_immutable_memtable'))),
+                 ('obsolete files are removed although the flush did not complete', Or(BoolVal('remove_obsolete_files' not in evs), And(conv_ok, apply_ok))),
+                 ('a manifest edit is logged although the table file was not written', Or(BoolVal('log_and_apply' not in evs), conv_ok)),
+                 ('a failed flush does not put the database into the failed state', Or(BoolVal('set_bad_database_state' in evs), And(conv_ok, apply_ok))),
+                 ('a successful flush keeps the immutable memtable', Or(BoolVal('drop_immutable_memtable' in evs), Not(And(conv_ok, apply_ok, Not(shutting)))))]
+        res.cases[','.join(evs)] = res.cases.get(','.join(evs), 0) + 1
+        for label, post in posts:
+            ex.record_formula(label, pc, Not(post))
+            m = ex.model(Not(post))
+            if m is not None:
+                which = 'table' if not mval(m, conv_ok) else 'manifest'
+                res.violations.append({'label': label, 'events': evs, 'model': {'table_written': mval(m, conv_ok), 'manifest_logged': mval(m, apply_ok), 'shutting_down': mval(m, shutting)},
+                                       'replay': ['flush_fault', which] if 'before the manifest' not in label else ['sched_flush_visibility']})
+    env = {'$state': {'events': []}, '$dbs': {'abstract': True, '__ty': 'PortableDatabaseState'}, '$g': {'abstract': True, '__ty': 'GuardedDbFields'}, '$guard': Ref('$g')}
+    ex.top(fn, [Ref('$dbs'), Ref('$guard')], env, [], k)
+    res.absorb(ex)
+    res.wall_s = time.time() - t0
+    if res.violations: res.status = 'violation'
+    return res
+
+
+def o2_4_confirm(v, out):
+    if out.get('_rc') != 0: return (False, 'native run failed: %s' % out.get('_stderr', '')[-300:])
+    if v['replay'][0] == 'sched_flush_visibility':
+        return (out.get('during_flush') != 'v', 'a get issued while the flush is writing the manifest returned %s (expected v)' % out.get('during_flush'))
+    lost = out.get('after_fault') != 'v' or out.get('after_reopen') != 'v'
+    return (lost, 'flush with an injected %s fault (hit: %s): get afterwards %s, after reopen %s (expected v both times)' % (v['replay'][1], out.get('fault_hit'), out.get('after_fault'), out.get('after_reopen')))
